@@ -134,6 +134,21 @@ theorem cached_mapping_breaks_second_run :
     runsOnPath true po [serial, later] = [[some 0, some 10, some 20, some 30], [some 20, some 30, some 0, some 10]] := by
   decide +kernel
 
+/-- T4 (repeated parallel runs on one object).  With a fresh `ray.put` in every call the workers evaluate the object
+    as it is at THAT call, whatever was stored before — so each parallel run can equal the serial run of the current
+    object. -/
+theorem workers_see_current_object {σ : Type} : ∀ (stored : Option σ) (states : List σ),
+    workersSee false stored states = states
+  | _, [] => rfl
+  | stored, s :: rest => by
+    simp only [workersSee]
+    rw [workers_see_current_object (some s) rest]
+
+/-- the seeded defect W-C12: re-using the reference of the first call makes every later call evaluate the FIRST state -/
+theorem reused_snapshot_is_stale :
+    workersSee true none [(1 : Nat), 2, 3] = [1, 1, 1] ∧ workersSee false none [(1 : Nat), 2, 3] = [1, 2, 3] := by
+  decide
+
 /-- T3.  `to_grid` (mean of the arrivals sitting on each grid point) does not depend on the arrival order. -/
 theorem toGrid_perm_invariant {κ ν} [BEq κ] [Field ν] (arr arr' : List (κ × ν)) (h : arr.Perm arr')
     (grid : List κ) : toGrid arr grid = toGrid arr' grid :=
